@@ -14,7 +14,7 @@ claimed = {
    note=L1NOTE+"file/cmd fans: fixed limits 0/255; raises are not added to the floor (weaker, sound).",
    tech="deterministic simulation (closed loop in virtual time, fault injection), reference image-set oracle on every regulating write"),
  "C02": dict(cat="exploration", ref="§3/C02",
-   text="Seeded search over neverStop fans (hwmon with configured or curve-derived minimum, file, cmd), algorithms and rotor-stall episodes injected into the fan plant; per control cycle the request (observed as PWM file content through identity read-back) is compared with the reference floor, raises must be strict and permanent, the reported minimum must never drop.",
+   text="Seeded search over neverStop fans (hwmon with configured or curve-derived minimum, file, cmd), algorithms and rotor-stall episodes injected into the fan plant; per control cycle the request (observed as PWM file content through identity read-back) is compared with the reference floor, raises must be strict and permanent, the reported minimum must never drop. Family c02side adds third-party PWM writes between control cycles and failed/absurd PWM reads inside the RPM monitor's sample.",
    note=L1NOTE+"Requests are only observable for identity maps; startPwm is not configured without minPwm here.",
    tech="deterministic simulation with plant-stall fault injection, per-cycle floor/raise invariants"),
  "C04": dict(cat="exploration", ref="§3/C04",
@@ -38,7 +38,7 @@ claimed = {
    note=L1NOTE+"EIO/EACCES and command timeouts are returned by the seam instead of the failing syscall; all other faults are produced by changing the real file / script so that the repository's own parsing runs. Floating-point tolerance 1e-12 (hull) / 1e-9 (convergence).",
    tech="deterministic simulation with read-fault injection, per-poll invariants against a reference hull/convergence model"),
  "C10": dict(cat="exploration", ref="§3/C10",
-   text="Bounded liveness in counted RPM polls under a simulated clock: for seeded window sizes 1..50, prior RPM histories and stall instants, the request must rise within 20n+20 polls of continuous 0 RPM (again after each raise), and at the maximum the controller must report, stop regulating and restore the fan. Minutes of polling cost seconds in virtual time.",
+   text="Bounded liveness in counted RPM polls under a simulated clock: for seeded window sizes 1..50, prior RPM histories and stall instants, the request must rise within 20n+20 polls of continuous 0 RPM (again after each raise), and at the maximum the controller must report, stop regulating and restore the fan; in part of the runs a third party overwrites the PWM after every control cycle while fan2go keeps its request. Minutes of polling cost seconds in virtual time.",
    note=L1NOTE+"The constant 20 is an oracle parameter taken from the property wording; cycles run at least as often as polls; algorithms restricted to those that settle (premise: request unchanged).",
    tech="deterministic simulation (virtual time, plant-stall injection), bounded-liveness oracle in counted polls"),
  "C12": dict(cat="exploration", ref="§3/C12",
@@ -50,8 +50,8 @@ claimed = {
    note="Honest scope: mostly a state machine over data; simulation contributes measured data (init sequence in virtual time), persistence and the restart/re-attach path. All-zero data: only range and configured-wins asserted; the measured minimum is not asserted.",
    tech="deterministic simulation (init sequence against a plant in virtual time) + reference limit derivation"),
  "C16": dict(cat="exploration", ref="§3/C16",
-   text="2-4 real controllers with an empty database start with seeded delays against fan plants of differing settle times; the seeded scheduler decides every interleaving of their file operations; analysis intervals on the kernel's event sequence must be pairwise disjoint when the option is false (overlap is demonstrably observable in the control group with the option true). The lock hook parks a goroutine until the kernel observes the real mutex free (TryLock probe) and provides no exclusion itself, so removing or narrowing the real lock stays visible.",
-   note=L1NOTE+"An analysis is delimited by its first and last file operation issued from the PWM sweep or the initialisation sequence.",
+   text="2-4 real controllers with an empty database start with seeded delays against fan plants of differing settle times; the seeded scheduler decides every interleaving of their file operations; analysis intervals on the kernel's event sequence must be pairwise disjoint when the option is false (overlap is demonstrably observable in the control group with the option true); 40% of the runs plant transient I/O faults inside an analysis. The lock hook parks a goroutine until the kernel observes the real mutex free (TryLock probe) and provides no exclusion itself, so removing or narrowing the real lock stays visible.",
+   note=L1NOTE+"An analysis event is a file operation on the fan issued from the PWM sweep or the initialisation sequence (by function name) or a PWM value written to the fan between the start of its controller and the start of its regulation (by window).",
    tech="deterministic simulation: seeded schedule search over concurrent initialisation sequences, interval-disjointness oracle"),
  "C03": dict(cat="exploration", ref="§3/C03",
    text="One OS process per run executes the real program (cobra root command -> YAML -> Validate -> RunDaemon actor group) in a bubble; 1-3 termination signals are injected with os/signal's delivery semantics at seeded instants across all controller phases (start-up wait, analysis, first-second delay, between ticks, inside a cycle by decision index, same instant, after the Nth restore write) while restore-phase mode/PWM writes fail, are refused or silently ignored; after the process ended the driver files must satisfy (mode==original and original!=1) or PWM==255, the exit must be orderly and timely. Evidence, not proof.",
@@ -66,7 +66,7 @@ claimed = {
    note="Trusted: the harness's own spec validator (yaml.v3) and document generator; hwmon entries always name existing devices (binding failures belong to C17). A decode failure ending in a panic trace counts as rejection.",
    tech="generated configurations through the real loader/validator + boot in the deterministic simulation (process per document)"),
  "C15": dict(cat="exploration", ref="§3/C15",
-   text="Multi-incarnation histories of the real program over one world directory in which only the bbolt database survives: daemon starts ended by injected SIGTERM, the real `fan reset` and `fan init` commands, each its own OS process in virtual time; the journal of PWM writes before the first control cycle decides whether the sweep / the RPM-curve measurement was repeated, for hwmon/file/cmd fans with and without configured pwmMap and min+max; re-analysis after reset guards against vacuous passes. One known finding (README promise about configured min+max) is listed in known_findings.json.",
+   text="Multi-incarnation histories of the real program over one world directory in which only the bbolt database survives: daemon starts ended by injected SIGTERM, the real `fan reset` and `fan init` commands, each its own OS process in virtual time; the journal of PWM writes before the first control cycle decides whether the sweep / the RPM-curve measurement was repeated, for hwmon/file/cmd fans with and without configured pwmMap and min+max; some histories contain a configuration edit (pwmMap added or replaced) between two incarnations, after which every regulating write must be a value of the configured map; some restarts run while another process holds the database lock; re-analysis after reset guards against vacuous passes. One known finding (README promise about configured min+max) is listed in known_findings.json.",
    note="Trusted: classification of start-up writes by call stack (sweep vs measurement), thresholds 8 / 3 writes; process restarts model only loss of non-durable state (no torn database).",
    tech="deterministic simulation across process restarts (durable state only), start-up write-journal oracle"),
  "C17": dict(cat="exploration", ref="§3/C17",
@@ -74,9 +74,9 @@ claimed = {
    note="Trusted base: the stand-in's feature ordering (type, then channel) matches libsensors - it defines what 'index' means. A ui.Fatal exit (message, then pterm's panic) before any device was written counts as a clean failure when the message names the entry.",
    tech="deterministic simulation of the daemon over generated device trees with permuted enumeration order; observed-I/O vs reference-binding oracle"),
  "C14": dict(cat="fault_enumeration", ref="§3/C14",
-   text="(i) seeded sequences of save/load/delete/corrupt operations of both kinds over three fan ids with arbitrary maps run through the real persistence code (bbolt reopened per operation) against an in-memory model, reading back all six entries after every step; (ii) for each generated sequence a real worker process is killed by SIGKILL at the k-th pwrite64 and at the k-th fdatasync (strace syscall injection) for every k that sequence issues, and a fresh process reads everything back: acknowledged operations visible, the in-flight one all-or-nothing, other entries untouched.",
-   note="Crash points are enumerated exhaustively per sequence; sequences are sampled. Process kill, not power loss (completed writes survive, no torn pwrite). No simulated clock/scheduler is involved (L0/L3); concurrent clients are not explored because the operations contain no seam (stated in DESIGN.md).",
-   tech="model-based operation sequences + exhaustive crash-point injection per sequence (SIGKILL at syscall k via strace), fresh-process read-back"),
+   text="(i) seeded sequences of save/load/delete/corrupt operations of both kinds over three fan ids with arbitrary maps run through the real persistence code (bbolt reopened per operation) against an in-memory model, reading back all six entries after every step; (ii) for each generated sequence a real worker process is killed by SIGKILL at the k-th pwrite64 and at the k-th fdatasync (strace syscall injection) for every k that sequence issues, and a fresh process reads everything back: acknowledged operations visible, the in-flight one all-or-nothing, other entries untouched; (iii) 2-3 concurrent clients of the persistence API whose operations the seeded kernel interleaves at the db.open yield point; the invoke/return history of every entry (kernel sequence numbers, unique values) is checked for linearizability against a per-entry register model with porcupine.",
+   note="Crash points are enumerated exhaustively per sequence; sequences and client schedules are sampled. Process kill, not power loss (completed writes survive, no torn pwrite). The only seam inside a persistence operation is the yield point before the database is opened; inside the bbolt transaction the operations run atomically with respect to the simulator (bbolt's file lock serialises them in reality).",
+   tech="model-based operation sequences + exhaustive crash-point injection per sequence (SIGKILL at syscall k via strace), fresh-process read-back; seeded client interleavings with a porcupine linearizability check"),
  "C18": dict(cat="exploration", ref="§3/C18",
    text="As root the harness walks an executable and a configuration file through owner x group x all 512 modes x {direct, symlink} with real chown/chmod and calls the real cmd sensor, cmd fan and configuration validation at every point: the command's side-effect marker must grow exactly when the reference predicate holds and the file is executable, a rejected file must yield an error and leave no trace; thorough enumerates all 4096 attribute points (that sub-space exhaustively), quick samples 2048 draws. A closed loop with cmd backends has its scripts' attributes flipped between executions by environment events; every exec event is judged on the attributes in force at its check.",
    note="Runs as root. Flips never land between check and start of one execution (inherent check-then-exec window). The walk is OS-level attribute enumeration; only c18loop runs under the simulator.",
